@@ -1,4 +1,5 @@
 --------------------------------- MODULE Db ---------------------------------
+\* FROZEN COPY for specs/crash/Crash.tla of specs/db/Db.tla (commit 0515c67) with one change in Reopen, marked [Crash.tla copy].
 (***************************************************************************)
 (* Single-node TSDB: head (in-order chunks, out-of-order chunks), appenders *)
 (* with snapshotted admission windows, commit-time re-check, persisted      *)
@@ -458,9 +459,12 @@ Reopen ==
         /\ htomb' = htomb
         /\ hdel' = hdel   \* tombstone records are replayed from the WAL like the samples they cover
         /\ minValid' = mv
-        /\ hInit' = (its # {})
-        /\ hMin' = IF its # {} THEN SetMin(its) ELSE PosInf
-        /\ hMax' = IF its # {} THEN SetMax(its) ELSE NegInf
+        \* [Crash.tla copy] with an in-order block on disk, open() -> reload -> Head.Truncate(blkMax) initialises the head
+        \* with minTime = maxTime = blkMax before the WAL replay (which can only raise maxTime): the first head
+        \* compaction after a restart may start with empty block ranges.  specs/db/Db.tla uses the sample times.
+        /\ hInit' = (its # {} \/ mv > NegInf)
+        /\ hMin' = IF mv > NegInf THEN mv ELSE IF its # {} THEN SetMin(its) ELSE PosInf
+        /\ hMax' = IF its # {} THEN Max2(SetMax(its), mv) ELSE IF mv > NegInf THEN mv ELSE NegInf
         /\ oom' = [s \in Series |-> oom[s] \cup oghost[s]]
         /\ UNCHANGED <<ooh, oghost, blk, blkMax, oooSeen, app, stored, kfset>>
         /\ Step([a |-> "Reopen", exp |-> ExpAll(stored)])
